@@ -20,6 +20,12 @@ for ln in open(os.path.join(here, "properties.jsonl")):
     p = json.loads(ln)
     if p["id"] not in claimed:
         na.append({"property_id": p["id"], "reason": "check not built yet (work in progress; see DESIGN.md)"})
+# known_findings.json = the per-property files findings/Cxx.json merged (the checks read the latter)
+entries = []
+for f in sorted(glob.glob(os.path.join(here, "findings", "C*.json"))):
+    entries += json.load(open(f))["entries"]
+json.dump({"comment": "Merged from findings/Cxx.json by tools/mkmanifest.py. kind=finding: the check prints KNOWN-FINDING for failing cases with this signature and exits 0; kind=fixed: suppresses nothing (DESIGN.md 2.6).",
+           "entries": entries}, open(os.path.join(here, "known_findings.json"), "w"), indent=1)
 hooks = json.load(open(os.path.join(here, "checks", "hooks.json")))
 m = {
     "version": 1,
